@@ -1,7 +1,8 @@
 (** Wire-format wrapper of the shard id model.
     op 1 n key      -> 1=compute_id n key
-    op 2 n          -> 2=mask_high 3=mask_low 4=bytes_needed *)
-From Coq Require Import List NArith ZArith.
+    op 2 n          -> 2=mask_high 3=mask_low 4=bytes_needed
+    op 3 n (int32, may be negative) -> 5=NewShardIDProvider accepts n *)
+From Coq Require Import List NArith ZArith Bool.
 From Verif Require Import Base.Generic Base.BStr Persist.ShardId.
 Import ListNotations.
 Open Scope N_scope.
@@ -13,6 +14,7 @@ Definition shardid_step (s : unit) (code : N) (args : list garg) : unit * list o
          (s, [(1, g_N (compute_id n k))])
   | 2 => let n := arg_N (nth_arg args 0) in
          (s, [(2, g_N (mask_high n)); (3, g_N (mask_low n)); (4, g_N (bytes_needed n))])
+  | 3 => (s, [(5, g_bool (provider_accepts (arg_Z (nth_arg args 0))))])
   | _ => (s, [])
   end.
 
